@@ -78,6 +78,20 @@ pub struct Gen {
     pub probes_left: usize,
     /// a shrink was just issued mid-resize: probe the (now tight) headroom next
     pub force_probe: bool,
+    /// scripted steps to run before choosing freely again
+    pub script: std::collections::VecDeque<Script>,
+}
+
+/// Steps of the "tightest state" recipe: grow by `reserve`, move a batch or two, shrink mid-resize
+/// (leaving little or no slack), fill to capacity, and keep inserting — the histories in which an
+/// off-by-one in the headroom arithmetic, or an old table that is not released on time, shows.
+#[derive(Clone, Copy, Debug)]
+pub enum Script {
+    InsertFresh,
+    ReserveBeyond(usize),
+    RemoveMain,
+    ShrinkToFit,
+    FillProbe,
 }
 
 const THRESHOLDS: [usize; 17] = [3, 7, 14, 28, 56, 112, 224, 448, 896, 1792, 3584, 7168, 14336, 28672, 57344, 114688, 229376];
@@ -89,7 +103,7 @@ impl Gen {
         // the churn slice is about large maps: aim at one of the three largest thresholds allowed
         let base = if slice == Slice::Big && ths.len() > 3 { *rng.pick(&ths[ths.len() - 3..]) } else { *rng.pick(&ths) };
         let target = (base as i64 + rng.below(5) as i64 - 1).max(1) as usize;
-        Gen { rng, slice, target, next_fresh: 0, step: 0, since_dump: 0, probes_left: if slice == Slice::Cap { 8 } else { 3 }, force_probe: false }
+        Gen { rng, slice, target, next_fresh: 0, step: 0, since_dump: 0, probes_left: if slice == Slice::Cap { 8 } else { 3 }, force_probe: false, script: Default::default() }
     }
 
     fn fresh(&mut self) -> u64 {
@@ -269,6 +283,44 @@ impl Gen {
         let o = observe(m);
         let split = o.old.is_some();
         let len = o.len;
+        // the tight-state recipe: sometimes, early in a history, in the slices about capacity
+        if self.step == 3 && matches!(self.slice, Slice::Cap | Slice::Core) && self.rng.chance(1, 5) {
+            let n = 9 + self.rng.below(120) as usize;
+            for _ in 0..n {
+                self.script.push_back(Script::InsertFresh);
+            }
+            self.script.push_back(Script::ReserveBeyond(1 + self.rng.below(3) as usize));
+            for _ in 0..(1 + self.rng.below(3)) {
+                self.script.push_back(Script::InsertFresh);
+            }
+            for _ in 0..self.rng.below(6) {
+                self.script.push_back(Script::RemoveMain);
+            }
+            self.script.push_back(Script::ShrinkToFit);
+            self.script.push_back(Script::FillProbe);
+            for _ in 0..3 {
+                self.script.push_back(Script::InsertFresh);
+            }
+        }
+        if let Some(st) = self.script.pop_front() {
+            return match st {
+                Script::InsertFresh => (0, Op::Insert { k: self.fresh(), v: 1 }),
+                Script::ReserveBeyond(x) => (0, Op::Reserve { n: (o.cap - o.len.min(o.cap)) + x }),
+                Script::RemoveMain => {
+                    // a key that already sits in the main table (not in the old one)
+                    let ok: Vec<u64> = old_keys(m);
+                    let k = w.refs.get(0).and_then(|r| r.as_ref()).and_then(|r| r.keys().copied().find(|k| !ok.contains(k)));
+                    match k {
+                        Some(k) => (0, Op::Remove { k, variant: 0 }),
+                        None => (0, Op::Get { k: 0, variant: 0 }),
+                    }
+                }
+                Script::ShrinkToFit => (0, Op::ShrinkToFit),
+                Script::FillProbe => {
+                    if o.cap - o.len.min(o.cap) <= 600 { (0, Op::FillProbe { start: 3_000_000 + self.next_fresh * 16 }) } else { (0, Op::Dump) }
+                }
+            };
+        }
         if self.force_probe {
             self.force_probe = false;
             if o.cap - o.len.min(o.cap) <= 600 {
@@ -279,6 +331,42 @@ impl Gen {
         if split && matches!(self.slice, Slice::Cap | Slice::Core) && self.rng.chance(1, 12) {
             self.force_probe = true;
             return (0, Op::ShrinkToFit);
+        }
+        // Another phase plain use rarely rests in: the old table emptied *in place* (by `retain` or a
+        // `replace_entry_with` returning `None`) and still allocated.  Every call that has to cope with a
+        // present-but-empty old table gets its turn before a key-adding call ends the phase.
+        if let Some((0, ..)) = o.old {
+            if self.rng.chance(3, 4) && !matches!(self.slice, Slice::Big) {
+                let k = self.some_key(w, 0);
+                let nb = self.boundary(w, 0);
+                let nb = if nb > (1 << 20) && nb < usize::MAX / 16 { nb % 4096 } else { nb };
+                return match self.rng.below(16) {
+                    0 | 1 => (0, Op::Clear),
+                    2 => (0, Op::Drain { take: self.rng.below(len as u64 + 1) as usize, forget: false }),
+                    3 => (0, Op::Reserve { n: nb }),
+                    4 => (0, Op::TryReserve { n: self.boundary(w, 0) }),
+                    5 => (0, Op::ShrinkToFit),
+                    6 => (0, Op::Shrink { n: self.boundary(w, 0) }),
+                    7 => (1, Op::Clone { src: 0 }),
+                    8 => {
+                        if w.map(1).is_some() { (1, Op::CloneFrom { src: 0 }) } else { (1, Op::Clone { src: 0 }) }
+                    }
+                    9 => (0, Op::Iter { variant: self.rng.below(5) as u8 }),
+                    10 => (0, Op::Retain { p: self.pred(w, 0) }),
+                    11 => (0, Op::Get { k, variant: self.rng.below(8) as u8 }),
+                    12 => (0, Op::Remove { k, variant: 0 }),
+                    13 => (0, Op::Dump),
+                    14 => {
+                        if o.cap - o.len.min(o.cap) <= 300 && self.probes_left > 0 {
+                            self.probes_left -= 1;
+                            (0, Op::FillProbe { start: 4_000_000 + self.next_fresh * 16 })
+                        } else {
+                            (0, Op::IterMut { add: 1, variant: 0 })
+                        }
+                    }
+                    _ => (0, Op::Entry { via: self.rng.below(4) as u8, k, steps: vec![Step::OccGetMut(0, 1)] }),
+                };
+            }
         }
         // steer towards the target size: grow to it, then churn around it
         let growing = len < self.target;
